@@ -404,6 +404,9 @@ func runCheck(o *checkOpts) int {
 		},
 		"assumptions": standingAssumptions,
 	}
+	if sc := loadScope(o.verif, o.prop); sc != nil {
+		ev["scope"] = sc
+	}
 	if o.prop != "" {
 		os.MkdirAll(filepath.Join(o.verif, "evidence"), 0o755)
 		b, _ := json.MarshalIndent(ev, "", " ")
@@ -423,10 +426,24 @@ func runCheck(o *checkOpts) int {
 
 var standingAssumptions = []string{
 	"Go int/uint64 index arithmetic is treated as mathematical; every length and capacity is assumed <= 2^40 (allocation failure is outside the claims)",
-	"object-level frame: a function writes fields only of its receiver/parameters' objects or of objects it allocates (checked syntactically per field map, not per object)",
+	"frames: every function verified against its contract is also proved (frame.* obligations) to write only fields of its modifies roots, listed leaves, byte arrays owned by them, and memory it allocates; frames of functions with assumed contracts are trusted as declared",
 	"typed memory: byte cells hold 0..255, slice headers read from the heap are well-formed",
 	"determinism and sequential semantics of Go; no goroutines in the verified functions",
 	"user callbacks use the printer only during the call and only from the calling goroutine",
+}
+
+// loadScope: the per-property statement (kept in /verif/scope.json) of which clauses of the property the
+// obligations decide and which they do not.
+func loadScope(verif, prop string) interface{} {
+	b, err := os.ReadFile(filepath.Join(verif, "scope.json"))
+	if err != nil {
+		return nil
+	}
+	var m map[string]interface{}
+	if json.Unmarshal(b, &m) != nil {
+		return nil
+	}
+	return m[prop]
 }
 
 func failedNames(f []*obResult) []string {
